@@ -31,8 +31,8 @@ def _mc_configs(ctx):
 
 
 def _simulate(ctx):
-    sim = tlc.run(ctx, "QuotaTree", "QuotaTree_sim.cfg", simulate={"num": ctx.pick(12, 300), "file": True},
-                  depth=ctx.pick(7, 10), seed=ctx.seed, workers=1, timeout=1200, name="sim")
+    sim = tlc.run(ctx, "QuotaTree", "QuotaTree_sim.cfg", simulate={"num": ctx.pick(12, 150), "file": True},
+                  depth=ctx.pick(7, 10), seed=ctx.seed, workers=1, timeout=ctx.pick(1200, 3000), name="sim")
     if sim.kind is not None and sim.kind != "invariant":
         raise InfraError("TLC simulation ended unexpectedly: %s" % sim.summary())
     return tlc.sim_behaviours(sim)
